@@ -52,10 +52,13 @@ LoopByte(r, b, include) ==
   ELSE      [r |-> [p.r EXCEPT !.nb = Append(p.r.nb, b)], ret |-> <<>>, kind |-> "more"]
 
 \* the path taken when read(1) fails (end of the stream):
-\*   as-is    : whatever is in nalBuffer is returned, the SEI test is NOT applied
-\*   intended : the SEI test is applied here too
+\*   "current" : the code as it is (since /repo commit 7b855c6): the unit left in nalBuffer is subject
+\*               to the SEI filter like any other; a filtered trailing SEI makes NextNAL report io.EOF
+\*   "pinned"  : the code before that repair: whatever is in nalBuffer is returned, the SEI test is
+\*               NOT applied.  Kept only as the documented counterexample (AnnexB_pinned.cfg,
+\*               AnnexBVec_pinned.cfg); nothing that is replayed or compared with pion uses it.
 AtEnd(r, include, impl) ==
-  IF Len(r.nb) = 0 \/ (impl = "intended" /\ ~include /\ IsSeiBuf(r.nb))
+  IF Len(r.nb) = 0 \/ (impl = "current" /\ ~include /\ IsSeiBuf(r.nb))
   THEN [r |-> [r EXCEPT !.nb = <<>>], ret |-> <<>>, kind |-> "eof"]
   ELSE [r |-> [r EXCEPT !.nb = <<>>], ret |-> r.nb, kind |-> "ret"]
 
